@@ -24,8 +24,9 @@ GRIDS = {
     'nonuniform': [400, 410, 450, 520, 700],
 }
 GRIDS['Axum'] = [g * 1000 for g in GRIDS['A']]      # in um these are the same numbers as 'A' in nm: equal arrays, different spectra
+GRIDS['signed'] = GRIDS['nested']                      # same grid, values of both signs
 GRIDS['shifted'] = [420, 520, 620, 720]              # union span / step is not an integer
-PAIRS = [('A', 'shifted'), ('intA', 'nested'), ('intA', 'intnested'), ('A', 'same'), ('A', 'nested'), ('A', 'partial'), ('A', 'disjoint'), ('A', 'nonuniform'), ('nonuniform', 'nested'),
+PAIRS = [('A', 'signed'), ('A', 'shifted'), ('intA', 'nested'), ('intA', 'intnested'), ('A', 'same'), ('A', 'nested'), ('A', 'partial'), ('A', 'disjoint'), ('A', 'nonuniform'), ('nonuniform', 'nested'),
          ('nested', 'A'), ('partial', 'nonuniform')]
 
 
@@ -59,6 +60,8 @@ def guarded(fn):
 
 def values(name, seed):
     n = len(GRIDS[name])
+    if name == 'signed':
+        return rm.generic_real((n,), seed, tag=11, lo=-2.0, hi=2.0)
     if name.startswith('int'):
         return np.floor(rm.generic_real((n,), seed, tag=sum(map(ord, name)) % 17, lo=1, hi=9))
     return rm.generic_real((n,), seed, tag=sum(map(ord, name)) % 17, lo=0.5, hi=2.0)
@@ -318,15 +321,25 @@ def chk_scalar(case, acc, seed):
     exp = NPOPS[opn](v0, np.asarray(other, dtype=float) if kind not in ('int', 'float') else other)
     if not np.array_equal(r.wave, w0) or r.waveunit != unit:
         acc.violation('scalar:grid-changed', case, 'wavelength grid changed')
-    if not np.allclose(r.value, exp, rtol=1e-12):
+    if not np.allclose(r.value, exp, rtol=1e-12, equal_nan=True):
         acc.violation('scalar:value', case, f'{r.value} != {exp}')
     if r is a or not np.array_equal(a.value, v0) or not np.array_equal(a.wave, w0):
         acc.violation('scalar:operand-changed', case, 'operand changed / result is the operand')
     # operator form
     sym = {'add': '+', 'subtract': '-', 'multiply': '*', 'divide': '/', 'power': '**'}[opn]
     r2 = OPS[opn](a, other)
-    if not np.allclose(r2.value, exp, rtol=1e-12):
+    if not np.allclose(r2.value, exp, rtol=1e-12, equal_nan=True):
         acc.violation('scalar:operator-form', case, f'a {sym} other differs from a.{opn}(other)')
+    if kind in ('int', 'float', 'list', 'tuple'):
+        # the operand on the left: either refused (TypeError) or the operator with the operands in that order
+        try:
+            rl = OPS[opn](other, a)
+        except TypeError:
+            rl = None
+        if rl is not None and hasattr(rl, 'value'):
+            expl = NPOPS[opn](np.asarray(other, dtype=float) if kind not in ('int', 'float') else other, v0)
+            if not np.allclose(np.asarray(rl.value, float), expl, rtol=1e-12, equal_nan=True):
+                acc.violation(f'scalar:reflected:{opn}', case, f'other {sym} spectrum = {np.asarray(rl.value)[:3]} but {sym} applied in that order gives {expl[:3]}')
     if opn == 'multiply' and kind in ('int', 'float'):
         r3 = other * a
         if not np.allclose(r3.value, exp, rtol=1e-12):
@@ -398,7 +411,7 @@ def t_scalar(arg, acc):
 
 
 def run(tier, seed, acc, procs=None):
-    pairs = PAIRS if tier != 'quick' else PAIRS[:9]
+    pairs = PAIRS if tier != 'quick' else PAIRS[:10]
     tasks = [('t_pair', {'tier': tier, 'seed': seed, 'pair': list(p), 'op': o}) for p in pairs for o in OPS]
     tasks.append(('t_scalar', {'seed': seed}))
     acc.states += 1
